@@ -561,6 +561,12 @@ def run_sub(ctx, u):
             for p0 in range(size):
                 for p1 in range(p0 + 1, size + 1):
                     plan_.append((axis + "_front", (p0, p1)))
+            # ranges that run past the parent's far edge (into the overscan / the next rows): still counted from the named edge
+            lim = (CH - y0) if axis == "parallel" else (CW - x0)
+            for p1 in range(size + 1, min(size + PAD, lim) + 1):
+                for p0 in sorted({0, size - 1, size}):
+                    if 0 <= p0 < p1:
+                        plan_.append((axis + "_front_past_parent", (p0, p1)))
             for k in range(1, size + 1):
                 plan_.append((axis + "_front_from_end", k))
             room = (H - y1 if axis == "parallel" else W - x1) + 1
@@ -583,6 +589,14 @@ def run_sub(ctx, u):
             elif kind == "serial_front":
                 ok, s = ctx.guarded(mon, R.serial_front_region_from, pixels=p)
                 exp = parent[:, p[0]:p[1]]
+            elif kind == "parallel_front_past_parent":
+                mon = "sub.parallel_front"
+                ok, s = ctx.guarded(mon, R.parallel_front_region_from, pixels=p)
+                exp = canvas[y0 + p[0]:y0 + p[1], x0:x1]
+            elif kind == "serial_front_past_parent":
+                mon = "sub.serial_front"
+                ok, s = ctx.guarded(mon, R.serial_front_region_from, pixels=p)
+                exp = canvas[y0:y1, x0 + p[0]:x0 + p[1]]
             elif kind == "parallel_front_from_end":
                 ok, s = ctx.guarded(mon, R.parallel_front_region_from, pixels_from_end=p)
                 exp = parent[rows - p:, :]
